@@ -77,6 +77,11 @@ CLAIMED = {
          "2-16 goroutines share one kafka.Conn (ReadOffset with unique timestamps, ReadPartitions of topics with distinct partition counts, ReadBatch whose records spell their offsets, WriteMessages with unique values, deadline changes and expiry) and 2-64 goroutines share a Transport (ListOffsets, FindCoordinator, Produce, Fetch with random cancellation, deadlines, cuts mid-response, 5 ms idle timeout), with prompt, delayed and (Conn only, counted separately) reordered answers; hooks widen and count the hand-over windows (foreign response at the head of the stream, connection release after a round trip).",
          "trusted: the script rewriting answers as a function of the request; overlap of calls is measured on the logical clock and cases without overlap are not counted as non-trivial",
          "DESIGN.md section 5 C06"),
+ "C09": ("exploration",
+         "runtime monitor: call/return timeline of Close, WriteMessages, FetchMessage/ReadMessage, CommitMessages and Transport.RoundTrip with Completion callbacks, the fake brokers' request journal after Close returned, open fakenet connections per owner and the goroutine profile filtered to library frames",
+         "Writers (sync/async, 1-8 callers, batch timers 1 ms..10 min, retries and back-off, slow / silent / unreachable brokers), group and partition Readers (rebalances in progress, blocked fetches, commits in flight) and Transports are closed or have their contexts cancelled at seeded points; Close and cancelled calls must return within a bound derived from the configured timeouts, every accepted message must be sent or have exhausted its attempts with its Completion run before Close returns, after Close WriteMessages fails with io.ErrClosedPipe and FetchMessage/ReadMessage with io.EOF, the group was left, no request is journaled after Close returned, no library goroutine and no connection of the closed object remains.",
+         "trusted: bounds are wall-clock (configured time-outs <= 200 ms against a 20 s bound) and a breach is only reported after it repeats on an idle re-run; goroutines are attributed to the library by stack frames; cases run one at a time per process",
+         "DESIGN.md section 5 C09"),
  "C20": ("exploration",
          "runtime monitor in child processes (RLIMIT_AS 4 GiB, one decode at a time): process liveness, recovered panics, allocation accounting (runtime/metrics heap allocs, confirmed by an exact second decode) and outcome class for systematically mutated well-formed response frames through protocol.ReadResponse and through kafka.Client over the fake network",
          "For every response type and version (reference-encoded with a field map where a schema exists, library-encoded otherwise) every length/count field - frame size, string/bytes/array lengths fixed and compact, tagged-field counts and sizes, record-set size, batch length, message size, wrapper value length, record count and varint lengths - is set to -1, -2, 0, len-1, len+1, remaining+1, 2^15-1, 2^31-1, -2^31 and for varints 2^31, 2^32, 2^63, 2^64-1 and an unterminated varint; the decode must end as an error or a message, without panic or process death, allocating at most 1 MiB + 64 x frame length. CRC-covered fields with a recomputed CRC are informational.",
